@@ -294,11 +294,24 @@ def sparse_words(rng, w):
     return v
 
 
+def embeddings(rng, v4):
+    """IPv6 integers in which the IPv4 integer v4 is embedded - IPv4-compatible (::a.b.c.d), IPv4-mapped
+    (::ffff:a.b.c.d), 6to4 (2002:V4::/48), NAT64 (64:ff9b::a.b.c.d), ISATAP-like low 32 bits under fe80::5efe - plus
+    the neighbours of the two blocks netaddr itself converts.  Operands of the OTHER family are chosen among these: a
+    seeded change converted an IPv4-mapped right operand to IPv4 before a bitwise operator."""
+    v4 &= 0xffffffff
+    return [v4, 0xffff00000000 | v4, (0x2002 << 112) | (v4 << 80), (0x64ff9b << 96) | v4,
+            (0xfe80 << 112) | (0x5efe << 32) | v4, 0xffff00000000 | rng.getrandbits(32), 0xfffe00000000 | v4,
+            (1 << 48) | 0xffff00000000 | v4, (1 << 32) | v4]
+
+
 def rand_value(rng, w):
     r = rng.random()
     m = (1 << w) - 1
     if r < 0.12 and w >= 32:
         return sparse_words(rng, w)
+    if r < 0.17 and w == 128:
+        return rng.choice(embeddings(rng, rand_value(rng, 32)))
     if r < 0.25:
         return rng.choice(boundary_values(w))
     if r < 0.5:
